@@ -262,7 +262,7 @@ def _dispatch(it, st, stack, fr, dest, c, args, ret_bb):
         if isinstance(v, Agg) and v.ty == 'Option' and v.variant == 'None':
             return NONE()
         raise Unsupported('from_residual of %r' % (v,))
-    m = re.match(r'^Option::<.*?>::(ok_or_else|ok_or|cloned|copied|as_ref|as_mut|map|is_some|is_none|unwrap_or|and_then|take|replace|insert)(::<.*>)?$', c)
+    m = re.match(r'^Option::<.*?>::(ok_or_else|ok_or|cloned|copied|as_ref|as_mut|map|is_some|is_none|unwrap_or|and_then|take|replace|insert|filter)(::<.*>)?$', c)
     if m:
         op = m.group(1)
         o = deref(args[0]) if op in ('as_ref', 'as_mut', 'is_some', 'is_none', 'take', 'replace', 'insert') else args[0]
@@ -295,6 +295,22 @@ def _dispatch(it, st, stack, fr, dest, c, args, ret_bb):
             new = some(args[1])
             cellv.v = new
             return o if op == 'replace' else Ref(new.fields[0])
+        if op == 'filter':
+            if not is_some:
+                return NONE()
+            fn, env = closure_of(it, args[1])
+            keep = o
+
+            def _keep(rv, keep=None):
+                return rv
+            # the predicate's answer decides; a symbolic answer forks in the caller via `filter_keep`
+            caller = stack.pop()
+            stack.append((caller[0], caller[1], ('filter_keep', dest, keep), ret_bb))
+            nfr = {}
+            for (loc, _ty), v in zip(fn.args, [closure_env(fn, env), Ref(o.fields[0])]):
+                nfr[loc] = Cell(v)
+            stack.append((fn, nfr, 'bb0', 0))
+            return 'PUSHED'
         if op in ('map', 'and_then'):
             if not is_some:
                 return NONE()
